@@ -311,6 +311,29 @@ prop("C10", engine="e1", rule=(
     "every registered alias id is used as the dynamic id; non-trivial = "
     "arity >= 2 or a class with >= 2 alias ids or >= 2 updates"),
     quick=dict(cases=1500, size=60), thorough=dict(cases=40000, size=100))
+prop("C11", engine="e2", program="c11", rule=(
+    "two generators. (1) generated programs: a case is a combination of "
+    "virtual parameter kind (T&, const T&, T&&, T*, const T*, shared_ptr, "
+    "const shared_ptr&, virtual_ptr, virtual_shared_ptr, const "
+    "virtual_shared_ptr&) x inheritance shape between the method's and the "
+    "definition's class (same, first base, second base at non-zero offset, "
+    "virtual base, two levels, virtual diamond) x position of the virtual "
+    "parameter (arity 1..3) x non-virtual categories (int, tracked by value "
+    "from lvalue / rvalue, T&, const T&, T&&, move-only unique_ptr&& and by "
+    "value) x return category x policy; ~24-40 cases per translation unit, "
+    "compiled against /repo/include with ASan+UBSan and run; the caller "
+    "computes the expected address with static_cast, checks ownership, "
+    "values, addresses of reference arguments, and copy / move counts at "
+    "body entry. (2) typed universe: every legal tuple of 22 methods in 7 "
+    "parameter kinds over 13 real classes, each definition must receive "
+    "static_cast<DefClass*>(caller's object). non-trivial = the expected "
+    "address differs from the most-derived object's, or a tracked or "
+    "move-only argument is involved"),
+    technique="generated-program testing (seeded combination sampling, "
+              "compile and run, oracle computed by the language in the "
+              "caller) plus property-based testing on a typed universe",
+    quick=dict(cases=600, size=60, workers=6),
+    thorough=dict(cases=20000, size=100, workers=8))
 prop("C12", engine="e1", rule=(
     "random registries, arity 1..4; round trip: the text written by "
     "generator::write_static_offsets is parsed and compared position by "
@@ -443,6 +466,49 @@ def replay_file(exe, path, fork=True):
     return failed, msg
 
 
+PROGRAM_ENGINES = {"c11": "proggen.c11", "c20": "proggen.c20"}
+
+
+def program_module(name):
+    import importlib
+    sys.path.insert(0, ROOT)
+    return importlib.import_module(PROGRAM_ENGINES[name])
+
+
+def replay_program(j, scratch=None):
+    mod = program_module(j["engine"])
+    scratch = scratch or os.path.join(BUILD, "scratch",
+                                      "replay-%d" % os.getpid())
+    os.makedirs(scratch, exist_ok=True)
+    status, msg = mod.replay(j["case"], scratch, INC)
+    return status, msg
+
+
+def shrink_program_failure(fl, scratch):
+    """confirm (3 replays) and greedily simplify a failing program case"""
+    mod = program_module(fl["engine"])
+    for _ in range(2):
+        status, msg = mod.replay(fl["case"], scratch, INC)
+        if status != "FAIL":
+            return None
+    fl = dict(fl, message=msg)
+    cls = msg.split(":")[0]
+    budget = 12
+    progress = True
+    while progress and budget > 0:
+        progress = False
+        for cand in mod.shrinks(fl["case"]):
+            budget -= 1
+            if budget < 0:
+                break
+            status, m = mod.replay(cand, scratch, INC)
+            if status == "FAIL" and m.split(":")[0] == cls:
+                fl = dict(fl, case=cand, message=m)
+                progress = True
+                break
+    return fl
+
+
 def engine_for_file(path):
     with open(path) as f:
         j = json.load(f)
@@ -476,10 +542,22 @@ def check(pid, tier, seed):
     for path in sorted(glob.glob(os.path.join(ROOT, "replays", pid,
                                               "*.json"))):
         replayed += 1
-        failed, msg = replay_file(exe_for_file(path, cfg["engine"]), path)
+        with open(path) as f:
+            pj = json.load(f)
+        program_known = False
+        if pj.get("engine") in PROGRAM_ENGINES:
+            status, msg = replay_program(pj, scratch)
+            failed = status != "PASS"
+            program_known = status == "KNOWN"
+        else:
+            failed, msg = replay_file(exe_for_file(path, cfg["engine"]),
+                                      path)
         f = witness_of.get(path)
         if f is not None and f.get("status") == "open":
-            if failed:
+            if pj.get("engine") in PROGRAM_ENGINES and failed and \
+                    not program_known:
+                violations.append((path, msg))  # fails in another way
+            elif failed:
                 known_lines.append("KNOWN-FINDING: property=%s %s" %
                                    (pid, f["summary"]))
             continue
@@ -531,6 +609,14 @@ def check(pid, tier, seed):
                      os.path.join(scratch, "w%d.log" % w)))
     with cf.ThreadPoolExecutor(max_workers=NCPU) as ex:
         results = list(ex.map(run_worker, jobs))
+    program_result = None
+    if cfg.get("program"):
+        mod = program_module(cfg["program"])
+
+        def pool_map(fn, items):
+            with cf.ThreadPoolExecutor(max_workers=NCPU) as ex2:
+                return list(ex2.map(fn, items))
+        program_result = mod.check(tier, seed, scratch, INC, NCPU, pool_map)
 
     total = dict(evaluations=0, nontrivial=0, inconclusive=0)
     classes, excluded, samples, failures = {}, {}, [], []
@@ -566,6 +652,17 @@ def check(pid, tier, seed):
 
     # 3. workers that died (sanitizer abort, signal): re-run with case
     #    tracing to recover the case, then shrink it structurally
+    if program_result is not None:
+        r = program_result
+        for k in total:
+            total[k] += r.get(k, 0)
+        for k, v in r.get("classes", {}).items():
+            classes[k] = classes.get(k, 0) + v
+        for k, v in r.get("excluded", {}).items():
+            excluded[k] = excluded.get(k, 0) + v
+        samples = r.get("samples", [])[:3] + samples
+        failures += r.get("failures", [])
+        all_hashes.update(r.get("hashes", ()))
     exhaustive_parts = []
     for w in range(nworkers, nworkers + nextra):
         out = os.path.join(scratch, "w%d.json" % w)
@@ -604,6 +701,22 @@ def check(pid, tier, seed):
     for fl in failures:
         if fl.get("case") is None:
             violations.append(("", fl["message"]))
+            continue
+        if fl.get("engine") in PROGRAM_ENGINES:
+            fl = shrink_program_failure(fl, scratch)
+            if fl is None:
+                unconfirmed += 1
+                continue
+            key = fl["message"].split(":")[0]
+            if key in seen_msgs:
+                continue
+            seen_msgs.add(key)
+            digest = hashlib.sha256(json.dumps(fl["case"], sort_keys=True)
+                                    .encode()).hexdigest()[:12]
+            path = os.path.join(ROOT, "replays", pid, "found-%s.json" % digest)
+            with open(path, "w") as f:
+                json.dump(fl, f, indent=1)
+            violations.append((path, fl["message"]))
             continue
         tmp = os.path.join(scratch, "fail.json")
         with open(tmp, "w") as f:
@@ -782,8 +895,14 @@ def main():
         return check(pid, tier, seed)
     if args[0] == "replay":
         eng, j = engine_for_file(args[1])
-        exe = build(eng)
-        failed, msg = replay_file(exe, args[1])
+        if eng in PROGRAM_ENGINES:
+            status, msg = replay_program(j)
+            failed = status != "PASS"
+            if status == "KNOWN":
+                msg = "known finding (by-value argument moved more than once)"
+        else:
+            exe = build(eng)
+            failed, msg = replay_file(exe, args[1])
         if failed:
             print("VIOLATION property=%s replay=%s" % (j["property"], args[1]))
             print("  " + msg)
